@@ -142,3 +142,44 @@ L('submap_get_p', [pm_, m2_, X], z3.Implies(z3.And(submap(expandmap(pm_), m2_), 
                                             z3.And(mhas(m2_, X), mget(m2_, X) == expand(pget(pm_, X)))),
   nonind=True, triggers=[[submap(expandmap(pm_), m2_), phas(pm_, X)]],
   hints=[('submap_get', [expandmap(pm_), m2_, X]), ('expandmap_has', [pm_, X]), ('expandmap_get', [pm_, X])])
+
+# --- rust side: well-formedness, zip of (vars, plugs) -------------------------------------------------------------------------------
+vs__ = z3.Const('vs__', IdL)
+ps__ = z3.Const('ps__', ML)
+L('wf_msubst_e_rs', [phi, Y, psi], z3.Implies(z3.And(wf_rs(phi), wf_rs(psi)), wf_rs(msubst_e_rs(phi, Y, psi))),
+  ind=phi, triggers=[msubst_e_rs(phi, Y, psi)])
+L('wf_msubst_s_rs', [phi, Y, psi], z3.Implies(z3.And(wf_rs(phi), wf_rs(psi)), wf_rs(msubst_s_rs(phi, Y, psi))),
+  ind=phi, triggers=[msubst_s_rs(phi, Y, psi)])
+_tl_ps = lambda f, val, vars: [[(vars[1], MLs.get('lcons', 'ltl', vars[1]))]]
+L('mzip_has_mem', [vs__, ps__, kk], z3.Implies(mhas(mzip(vs__, ps__), kk), mem(kk, vs__)), ind=vs__,
+  triggers=[mhas(mzip(vs__, ps__), kk)], ih_extra=_tl_ps)
+L('mzip_get', [vs__, ps__, kk], z3.Implies(z3.And(mem(kk, vs__), il_index(vs__, kk) < ml_len(ps__)),
+                                           z3.And(mhas(mzip(vs__, ps__), kk),
+                                                  mget(mzip(vs__, ps__), kk) == ml_nth(ps__, il_index(vs__, kk)))),
+  ind=vs__, triggers=[[mzip(vs__, ps__), il_index(vs__, kk)]], ih_extra=_tl_ps, split_depth=2, uses=['il_index_nonneg', 'ml_len_nonneg'])
+L('ml_len_nonneg', [ps__], ml_len(ps__) >= 0, ind=ps__, triggers=[ml_len(ps__)])
+L('il_index_nonneg', [vs__, kk], il_index(vs__, kk) >= 0, ind=vs__, triggers=[il_index(vs__, kk)])
+L('minst_rs_nohit', [phi, vs__, ps__], z3.Implies(z3.And(wf_rs(phi), z3.Not(mv_hit(phi, vs__))),
+                                                  minst_rs(phi, mzip(vs__, ps__)) == phi), ind=phi,
+  triggers=[minst_rs(phi, mzip(vs__, ps__))], uses=['mzip_has_mem'], split_depth=1)
+L('ml_all_wf_nth', [ps__, kk], z3.Implies(z3.And(ml_all_wf(ps__), kk >= 0, kk < ml_len(ps__)), wf_rs(ml_nth(ps__, kk))), ind=ps__,
+  triggers=[ml_nth(ps__, kk)], ih_extra=lambda f, val, vars: [[(vars[1], vars[1] - 1)]], split_depth=1)
+tl__ = z3.Const('tl__', TL)
+tt__ = z3.Const('tt__', Term)
+L('il_len_snoc', [vs__, kk], il_len(il_snoc(vs__, kk)) == il_len(vs__) + 1, ind=vs__, triggers=[il_len(il_snoc(vs__, kk))], rewrite=True)
+L('ml_len_snoc', [ps__, psi], ml_len(ml_snoc(ps__, psi)) == ml_len(ps__) + 1, ind=ps__, triggers=[ml_len(ml_snoc(ps__, psi))], rewrite=True)
+L('tl_len_snoc', [tl__, tt__], tl_len(tl_snoc(tl__, tt__)) == tl_len(tl__) + 1, ind=tl__, triggers=[tl_len(tl_snoc(tl__, tt__))], rewrite=True)
+L('ml_all_wf_snoc', [ps__, psi], ml_all_wf(ml_snoc(ps__, psi)) == z3.And(ml_all_wf(ps__), wf_rs(psi)), ind=ps__,
+  triggers=[ml_all_wf(ml_snoc(ps__, psi))], rewrite=True)
+L('tl_all_wf_snoc', [tl__, tt__], tl_all_wf(tl_snoc(tl__, tt__)) == z3.And(tl_all_wf(tl__), wf_rs(z3.If(TRM.is_('Pat', tt__), TRM.get('Pat', 'pat', tt__), TRM.get('Prf', 'prf', tt__)))),
+  ind=tl__, triggers=[tl_all_wf(tl_snoc(tl__, tt__))], rewrite=True)
+L('tl_all_wf_nth', [tl__, kk], z3.Implies(z3.And(tl_all_wf(tl__), kk >= 0, kk < tl_len(tl__)),
+                                          wf_rs(z3.If(TRM.is_('Pat', tl_nth(tl__, kk)), TRM.get('Pat', 'pat', tl_nth(tl__, kk)), TRM.get('Prf', 'prf', tl_nth(tl__, kk))))),
+  ind=tl__, triggers=[tl_nth(tl__, kk)], ih_extra=lambda f, val, vars: [[(vars[1], vars[1] - 1)]], split_depth=1)
+L('tl_len_nonneg', [tl__], tl_len(tl__) >= 0, ind=tl__, triggers=[tl_len(tl__)])
+L('il_len_nonneg', [vs__], il_len(vs__) >= 0, ind=vs__, triggers=[il_len(vs__)])
+L('wf_minst_rs', [phi, m_], z3.Implies(z3.And(wf_rs(phi), mwf_rs(m_)), wf_rs(minst_rs(phi, m_))),
+  ind=phi, triggers=[minst_rs(phi, m_)], uses=['wf_msubst_e_rs', 'wf_msubst_s_rs', 'mwf_rs_get'])
+L('mwf_rs_get', [m_, kk], z3.Implies(z3.And(mwf_rs(m_), mhas(m_, kk)), wf_rs(mget(m_, kk))), ind=m_, triggers=[mget(m_, kk)])
+L('mwf_rs_zip', [vs__, ps__], z3.Implies(ml_all_wf(ps__), mwf_rs(mzip(vs__, ps__))), ind=vs__, triggers=[mzip(vs__, ps__)],
+  ih_extra=_tl_ps, split_depth=1)
